@@ -25,6 +25,7 @@
    Identities: order of creation, 1,2,3,...; the header is 0.
    Definitions only; proofs are in proof/SkipProof.v. *)
 From Ekit Require Import Common.
+From Coq Require Import Sorting.Sorted Sorting.Permutation.
 
 Definition MaxLevel : nat := 32.
 
@@ -263,6 +264,42 @@ Section WithCmp.
                 let '(l2, rs) := ms_run_from l1 t in (l2, r :: rs)
     end.
   Definition ms_run (ops : list op) : list T * list out := ms_run_from [] ops.
+
+  (* ---------- specification vocabulary (Props; used by props/C05_skip.v) ---------- *)
+  (* ascending w.r.t. the comparator, duplicates (elements comparing equal) allowed *)
+  Definition sortedT (l : list T) : Prop := StronglySorted (fun a b => cmp a b <= 0) l.
+
+  (* the skip-list invariants I1-I5 of DESIGN.md (C05), on the heights representation *)
+  Definition level_exact (s : sl) : Prop :=
+    (1 <= level s)%nat /\
+    Forall (fun n => (nht n <= level s)%nat) (nodes s) /\
+    (level s = 1%nat \/ exists n, In n (nodes s) /\ nht n = level s).
+  Definition skip_inv (s : sl) : Prop :=
+    StronglySorted (fun a b => cmp (nval a) (nval b) <= 0) (nodes s) /\     (* level 0 sorted *)
+    NoDup (map nid (nodes s)) /\                                            (* identities unique *)
+    Forall (fun n => (1 <= nid n < nextid s)%nat) (nodes s) /\
+    (1 <= nextid s)%nat /\
+    size s = Z.of_nat (length (nodes s)) /\                                 (* size = |level 0| *)
+    Forall (fun n => (1 <= nht n <= MaxLevel)%nat) (nodes s) /\             (* every node is on level 0 *)
+    level_exact s /\               (* chains empty at and above level; level = max(1, tallest tower) *)
+    rep s = true.                  (* the pointer surgery never left the heights representation *)
+
+  (* the multiset a history leaves behind: Insert adds its value; DeleteElement removes exactly
+     one element comparing equal to its argument if there is one, nothing otherwise *)
+  Inductive contents_rel : list op -> list T -> Prop :=
+  | CR_nil : contents_rel [] []
+  | CR_insert ops m v r : contents_rel ops m -> contents_rel (ops ++ [OInsert v r]) (v :: m)
+  | CR_delete_present ops m m' v x :
+      contents_rel ops m -> cmp x v = 0 -> Permutation m (x :: m') ->
+      contents_rel (ops ++ [ODelete v]) m'
+  | CR_delete_absent ops m v :
+      contents_rel ops m -> (forall x, In x m -> cmp x v <> 0) -> contents_rel (ops ++ [ODelete v]) m
+  | CR_search ops m v : contents_rel ops m -> contents_rel (ops ++ [OSearch v]) m
+  | CR_get ops m i : contents_rel ops m -> contents_rel (ops ++ [OGet i]) m
+  | CR_peek ops m : contents_rel ops m -> contents_rel (ops ++ [OPeek]) m
+  | CR_len ops m : contents_rel ops m -> contents_rel (ops ++ [OLen]) m
+  | CR_slice ops m : contents_rel ops m -> contents_rel (ops ++ [OAsSlice]) m
+  | CR_perm ops m m' : contents_rel ops m -> Permutation m m' -> contents_rel ops m'.
 End WithCmp.
 
 Arguments nid {T}. Arguments nval {T}. Arguments nht {T}.
